@@ -32,8 +32,25 @@ def scan_forbidden(paths):
                     hits.append("%s:%d: %s" % (os.path.relpath(p, LEAN), n, line.strip()[:120]))
     return hits
 
-def lean_sources():
-    return [p for p in glob.glob(os.path.join(LEAN, "Ebu", "**", "*.lean"), recursive=True)]
+def lean_sources(module=None):
+    """source files of `module` and of everything it imports inside this project (transitively);
+    all project sources when module is None"""
+    if module is None:
+        return [p for p in glob.glob(os.path.join(LEAN, "Ebu", "**", "*.lean"), recursive=True)]
+    seen, todo = {}, [module]
+    while todo:
+        m = todo.pop()
+        if m in seen:
+            continue
+        path = os.path.join(LEAN, *m.split(".")) + ".lean"
+        if not os.path.exists(path):
+            continue
+        seen[m] = path
+        for line in open(path):
+            mm = re.match(r"\s*(?:public\s+)?import\s+(\S+)", line)
+            if mm and (mm.group(1).startswith("Ebu.") or mm.group(1).startswith("Driver.")):
+                todo.append(mm.group(1))
+    return sorted(seen.values())
 
 def theorems_of(module):
     """(namespace-qualified) theorem names declared in a Props module, in order"""
